@@ -616,29 +616,45 @@ func c18Refresh(c *Ctx) {
 			c.check(okS && mnS >= 1, "C18.refresh.loop", loop, "every refresh is preceded, in its iteration, by the select on w.done", refreshCall,
 				"a path from the loop head to the refresh around the select (a fast path for a zero delay) starts refreshes after Shutdown has returned")
 		}
-		// "consults the schedule for the next delay after each refresh": every
-		// UntilNext inside the loop, and the clock reading it is given, comes
-		// after the refresh of its iteration on every path from the select
+		// "consults the schedule for the next delay after each refresh": between
+		// a refresh and the next wait — to the end of the iteration, then from
+		// the loop head to clock.After — the schedule is asked, with a clock
+		// reading taken in that stretch too, on every path
 		if refreshCall != nil {
-			core.EachInstr(loop, func(in ssa.Instruction) {
+			isUN := func(in ssa.Instruction) bool {
 				call, ok := in.(*ssa.Call)
-				if !ok || !isUntilNext(call) || !body[call.Block()] {
-					return
+				return ok && isUntilNext(call)
+			}
+			isNowOfUN := func(in ssa.Instruction) bool {
+				call, ok := in.(*ssa.Call)
+				if !ok || !call.Call.IsInvoke() || call.Call.Method.Name() != "Now" {
+					return false
+				}
+				for _, r := range core.Refs(call) {
+					if rc, ok := r.(*ssa.Call); ok && isUntilNext(rc) {
+						return true
+					}
+				}
+				return false
+			}
+			for _, pred := range []func(ssa.Instruction) bool{isUN, isNowOfUN} {
+				mnB, _, okB := core.CountOnPaths(loop, head.Instrs[0], after, pred)
+				if after.Block() == head && !okB {
+					mnB, okB = 0, true
 				}
 				okAfter := true
-				for _, at := range []ssa.Instruction{call, call.Call.Args[0].(*ssa.Call)} {
-					if !body[at.Block()] {
-						okAfter = false // a clock reading taken outside the loop
+				for _, p := range head.Preds {
+					if !body[p] {
 						continue
 					}
-					mn, _, ok := core.CountOnPaths(loop, sel, at, isRefresh)
-					if !ok || mn < 1 {
+					mnA, _, okA := core.CountOnPaths(loop, refreshCall, p.Instrs[len(p.Instrs)-1], pred)
+					if !okA || !okB || mnA+mnB < 1 {
 						okAfter = false
 					}
 				}
-				c.check(okAfter, "C18.refresh.loop", loop, "the next delay is computed, from a clock reading taken, after the refresh of the iteration", call,
+				c.check(okAfter, "C18.refresh.loop", loop, "between a refresh and the next wait the schedule is asked for the delay, with a fresh clock reading", refreshCall,
 					"a delay computed before a refresh that takes time is stale by the duration of that refresh")
-			})
+			}
 		}
 		for _, p := range head.Preds {
 			if !body[p] {
